@@ -5,8 +5,8 @@ namespace LPVerif.Generated
 /-- (file, line, callee, `from __future__ import …` names of that file, `dont_inherit=True` passed) -/
 def compileSites : List (String × Nat × String × List String × Bool) := [
   ("kernprof.py", 111, "compile", [], false),
-  ("line_profiler/autoprofile/autoprofile.py", 100, "compile", [], false),
-  ("line_profiler/autoprofile/autoprofile.py", 101, "exec", [], false),
+  ("line_profiler/autoprofile/autoprofile.py", 101, "compile", [], false),
+  ("line_profiler/autoprofile/autoprofile.py", 107, "exec", [], false),
   ("line_profiler/ipython_extension.py", 91, "eval", [], false),
   ("line_profiler/profiler_mixin.py", 317, "exec", [], false)
 ]
